@@ -14,6 +14,8 @@
      K11_setref         set_reference_target: DEST and the referrer map are updated before the text write that fails. *)
 From AV Require Import Base.Bytes Base.Outcome Hash.HashModel Tree.Heap Tree.Ops Tree.Script Tree.Inv Tree.InvProofs
   Tree.Index Tree.Observe Tree.Fail Tree.FailProofs Tree.FailProofsInv Tree.FailWitness Tree.FailTables Tree.FailRepair Spec.SpecReal.
+From AV Require Import Tree.Sort Tree.Copy Tree.Load Tree.Compat Tree.Serialize Tree.Script2 Tree.Fail2 Tree.FailProofsOp2.
+From AV Require Xml.Parser.
 Open Scope list_scope.
 Open Scope N_scope.
 
@@ -103,3 +105,44 @@ Theorem C11_nonvacuous :
     Core w /\ Tiny.run o w = Val (ER e, w') /\
     Known11 Tiny.tiny Tiny.tiny_el Tiny.tiny_en Tiny.tiny_check_fn Tiny.LATEST [] w o = false.
 Proof. exact nonvacuous11. Qed.
+
+(* ====================================================================== the extended alphabet op2 (Tree/Script2.v) *)
+
+(* [U] sort, sort model, duplicate, load, set_version, check_version_compatibility, serialize file / element, and the 26
+   operations of `op`: a call that returns an error and is not in a class of Known11_2 (= the three classes of Known11 +
+   a load rejected with InvalidFileMerge) leaves every node that existed, the files and the models as they were; the world
+   is literally the same unless the call is a copy, duplicate or load (which may leave unreachable fresh ids).
+   Uses agent-c14's e_sort_frame / m_sort_frame (sort never returns an error), agent-c13's duplicate_spec, agent-c09's
+   load_fail_no_effect; set_version agrees with agent-c17's C17_set_version. *)
+Theorem C11_fail_no_effect2 :
+  forall (T : tables) (tab_el tab_at tab_en : nametab) (check_fn : N -> list N -> res bool)
+         (float_parse : list N -> option N) (float_fmt : N -> list N)
+         (LATEST name_index name_definition_ref attr_schema_location : N) (root_attrs : list (N * cdata)),
+  tables_ok11 T ->
+  forall (w : world) (o : op2) (e : err) (w' : world),
+  Core w ->
+  Known11_2 T tab_el tab_at tab_en check_fn float_parse float_fmt LATEST name_index name_definition_ref
+            attr_schema_location root_attrs w o = false ->
+  run_op2 T tab_el tab_at tab_en check_fn float_parse float_fmt LATEST name_index name_definition_ref
+          attr_schema_location root_attrs o w = Val (ER e, w') ->
+  obs_eq_upto_garbage w w' /\ (may_leave_garbage o = false -> w' = w).
+Proof. exact C11_fail_no_effect2. Qed.
+
+(* [U] ONE statement for every operation: a failing call has no effect, or it is in exactly one of four classes:
+   move failing in make_unique_item_name after the unlinking, move failing in a referrer rewrite after the unlinking,
+   set_reference_target failing in the text write after DEST / referrer map, load rejected with InvalidFileMerge. *)
+Theorem C11_all_ops :
+  forall (T : tables) (tab_el tab_at tab_en : nametab) (check_fn : N -> list N -> res bool)
+         (float_parse : list N -> option N) (float_fmt : N -> list N)
+         (LATEST name_index name_definition_ref attr_schema_location : N) (root_attrs : list (N * cdata)),
+  tables_ok11 T ->
+  forall (w : world) (o : op2) (e : err) (w' : world),
+  Core w ->
+  run_op2 T tab_el tab_at tab_en check_fn float_parse float_fmt LATEST name_index name_definition_ref
+          attr_schema_location root_attrs o w = Val (ER e, w') ->
+  obs_eq_upto_garbage w w' \/
+  (exists o1, o = Op1 o1 /\ K11_move_noname T tab_el tab_en check_fn LATEST root_attrs w o1 = true) \/
+  (exists o1, o = Op1 o1 /\ K11_move_refwrite T tab_el tab_en check_fn LATEST root_attrs w o1 = true) \/
+  (exists o1, o = Op1 o1 /\ K11_setref T tab_el tab_en check_fn LATEST root_attrs w o1 = true) \/
+  (exists m buffer filename strict, o = OpLoad m buffer filename strict /\ e = InvalidFileMerge).
+Proof. exact C11_all_ops. Qed.
